@@ -902,6 +902,37 @@ static void checkArrays(int dx, int dy, int dz, vh::Rng &r)
         }
     vh::count("multislice_thick_or_view_slices", 2 * dz);
   }
+  // ---- value ranges describe the cells as they are NOW: the same adaptor object, asked again after the array it wraps
+  //      was written, reports the new values (and again the old ones once the cell is restored)
+  {
+    Array3DAccessor<int, float> acc(sbase);
+    IndexShiftedArray3D<int> sh(sbase, vec3i(0));
+    SubBoxArray3D<int> sb(sbase, box3i(vec3i(0), d));
+    std::vector<std::shared_ptr<Array3D<int> > > one(1, sbase);
+    bool ok1 = true, ok2 = true, ok3 = true;
+    const int lo0 = ID0, hi0 = ID0 + (int)total - 1;
+    auto asked = [&](int lo, int hi) {
+      range_t<float> ra = acc.getValueRange();
+      range_t<int> rs = sh.getValueRange(), rb = sb.getValueRange(), rS = S->getValueRange();
+      return ra.lower == (float)lo && ra.upper == (float)hi && rs.lower == lo && rs.upper == hi && rb.lower == lo && rb.upper == hi && rS.lower == lo && rS.upper == hi;
+    };
+    ok1 = asked(lo0, hi0);
+    vec3i cell(dx - 1, dy - 1, dz - 1);
+    int old = S->get(cell);
+    S->set(cell, hi0 + 1000);
+    int lo1 = lo0, hi1 = hi0 + 1000;
+    if (total > 1 && old == lo0)
+      lo1 = lo0 + 1;
+    if (total == 1)
+      lo1 = hi1;
+    ok2 = asked(lo1, hi1);
+    S->set(cell, old);
+    ok3 = asked(lo0, hi0);
+    if (!(ok1 && ok2 && ok3))
+      vh::violation("C17:getValueRange:stale-after-write", std::string("whole-volume getValueRange() of an adaptor / the array, asked ") + (!ok1 ? "first" : !ok2 ? "again after a cell of the wrapped array was set to a new maximum" : "again after the cell was restored") +
+                                                             ", does not bound the cells as they are", ctx);
+    vh::count("value_ranges_asked_again_after_a_write");
+  }
   // ---- Repeater, as defined: w' = w mod R per axis, mirrored when (w / R) is odd; get = actual(w')
   {
     vec3i Rs[3] = {vec3i(2 * dx, 2 * dy + 1, 3 * dz), vec3i(dx, dy, dz), vec3i(dx > 1 ? dx - 1 : 1, dy + 2, dz > 2 ? dz - 2 : 1)};
